@@ -151,6 +151,17 @@ def run(ctx):
                     sess.enforce({'by': 'name', 'name': name}, {}, {'roles': rng.choice([[], ['r']])})
                 sess.close()
                 sessions.append(sess)
+    # a name that is referenced while undefined (no usable default) and defined later
+    for dflt in (('opt', None), ('name', 'd'), None):
+        for body in (ev.rule('zz'), ev.Not(ev.rule('zz')), ev.Or(ev.F, ev.rule('zz'))):
+            for later in (ev.T, R):
+                sess = ec.Session([('n1', body), ('n2', ev.rule('n1'))], dflt, via='dict')
+                for name in ('n1', 'n2', 'zz'):
+                    sess.enforce({'by': 'name', 'name': name}, {}, {'roles': ['r']})
+                sess.set_rules([('zz', later)], overwrite=False, how='dict')
+                for name in ('n1', 'n2', 'zz', 'n1'):
+                    sess.enforce({'by': 'name', 'name': name}, {}, {'roles': rng.choice([[], ['r']])})
+                sessions.append(sess)
     for si, evi in ec.judge_sessions(ctx, sessions):
         ctx.violation('session:decision-ignores-current-rule-store', 'after the rule store was changed through the API a decision is not the one the current store gives',
                       {'history': sessions[si].log[:40], 'failing_event_index': evi, 'default_rule': repr(sessions[si].dflt)})
